@@ -187,6 +187,28 @@ def termIds (s : Index) (toks : List Nat) : List Nat :=
   else if s.docTokens.isEmpty then []
   else termLoop s toks []
 
+/-- What `score_term` reads for one query token (the `valid` map): per document that has a length, the
+term frequency of its **last** entry in the posting (`valid.insert` overwrites) and its length.
+`df` of the token is the length of this list. -/
+def tokenInfo (s : Index) (es : Entries) : List (Nat × Nat × Nat) :=
+  (validIds s es).map (fun i =>
+    (i, (match (es.filter (fun e => e.1 == i)).getLast? with | some e => e.2 | none => 0),
+        (get? s.docTokens i).getD 0))
+
+/-- some document is listed twice under the token (a left-over entry next to a new one): which of the
+two `score_term` takes its tf from depends on the `swap_remove` history, which the model does not keep -/
+def hasDupEntries (es : Entries) : Bool := (dedup (es.map (·.1))).length != es.length
+
+/-- everything the score of a term query is computed from: `N`, `total_tokens`, and per query token
+that has a posting with a valid document: the token and its `tokenInfo` -/
+def scoreInputs (s : Index) (toks : List Nat) : Nat × Nat × List (Nat × List (Nat × Nat × Nat)) :=
+  (s.len, s.totalTokens,
+    if s.postings.isEmpty || toks.isEmpty || s.docTokens.isEmpty then []
+    else (dedup toks).filterMap (fun t =>
+      match get? s.postings t with
+      | some es => let info := tokenInfo s es; if info.isEmpty then none else some (t, info)
+      | none => none))
+
 /-- What `score_and` needs to know about a sub-query: is it a `Not`, its normal-mode result
 (`execute_query(q, false)`) and, for `Not x`, the result of `x` (`execute_query(q, true)`). -/
 structure Kid where
@@ -374,6 +396,62 @@ def step (s : Index) : Op → Index
 def run (s : Index) : List Op → Index
   | [] => s
   | op :: ops => run (step s op) ops
+
+/-! ### the ghost state of a history (specification side of `term_general` / `term_exact_partial`)
+
+Executed by the driver next to the model (`gq`, `gflags`) and compared with the implementation, so
+that the statement of the theorems is tied to the code, not only their conclusion. -/
+
+/-- `cur i` = token set of the text document `i` was last inserted with, while it is live;
+`stale i t` = a posting entry `(i, _)` under `t` that a `remove` with non-original text left behind. -/
+structure Ghost where
+  cur : Nat → Option (List Nat)
+  stale : Nat → Nat → Bool
+
+def Ghost.init : Ghost := ⟨fun _ => none, fun _ _ => false⟩
+
+def Ghost.has (g : Ghost) (i t : Nat) : Bool :=
+  match g.cur i with
+  | some T => T.contains t
+  | none => false
+
+def gstep (g : Ghost) : Op → Ghost
+  | .insert id tf =>
+    if tf.isEmpty || (g.cur id).isSome then g
+    else
+      { cur := fun i => if id = i then some (tf.map (·.1)) else g.cur i
+        stale := fun i t => if id = i then g.stale i t && !(tf.map (·.1)).contains t else g.stale i t }
+  | .remove id tf =>
+    { cur := fun i => if id = i then none else g.cur i
+      stale := fun i t => if id = i then (g.stale i t || g.has i t) && !(tf.map (·.1)).contains t else g.stale i t }
+  | .purge ids =>
+    { cur := fun i => if ids.contains i then none else g.cur i
+      stale := fun i t => if ids.contains i then false else g.stale i t }
+
+def grun (g : Ghost) : List Op → Ghost
+  | [] => g
+  | op :: ops => grun (gstep g op) ops
+
+
+/-- does this `remove` name (at least) all tokens of the text the live document was inserted with -/
+def removeCovers (g : Ghost) (id : Nat) (tf : List (Nat × Nat)) : Bool :=
+  match g.cur id with
+  | some T => T.all (fun t => (tf.map (·.1)).contains t)
+  | none => true
+
+/-- every `remove` of a live document names (at least) all tokens of the text it was inserted with -/
+def removesCover (g : Ghost) : List Op → Prop
+  | [] => True
+  | .remove id tf :: ops => removeCovers g id tf = true ∧ removesCover (gstep g (.remove id tf)) ops
+  | op :: ops => removesCover (gstep g op) ops
+
+/-- what `term_general` predicts for a term query: live documents with a current or left-over token -/
+def ghostTermIds (g : Ghost) (univ : List Nat) (toks : List Nat) : List Nat :=
+  univ.filter (fun i => (g.cur i).isSome && toks.any (fun t => g.has i t || g.stale i t))
+
+/-- some live document of `universe` carries a left-over entry under one of `toks` -/
+def ghostVisibleStale (g : Ghost) (univ toks : List Nat) : Bool :=
+  univ.any (fun i => (g.cur i).isSome && toks.any (fun t => g.stale i t && !g.has i t))
 
 end Bm25
 end AndaVerif
